@@ -6,8 +6,10 @@ CONSTANTS
   InitSizes = {0, 2}
   MaxSteps = 7
   WithWriteDirect = FALSE
+  WithAppend = TRUE
+  Dev_AppendKeepsTail = FALSE
 INIT Init
 NEXT Next_
 VIEW ViewNoLast
-INVARIANTS NoDoubleFree NoLiveFreed NoEarlyFree LengthOK MallocOK NoDeadRelease ChainOK
+INVARIANTS NoDoubleFree NoLiveFreed NoEarlyFree LengthOK MallocOK NoDeadRelease ChainOK NoSharedNode
 CHECK_DEADLOCK FALSE
